@@ -545,7 +545,7 @@ pub fn run(ctx: &mut Ctx) {
     ctx.exhaustive = Some(true);
     let base = cats.len() as u64;
     // random deeper universes: random subsets re-ordered (exercises the memo under other histories)
-    let total = ctx.n(40, 4_000);
+    let total = ctx.n(200, 1_000_000);
     for case in ctx.cases(base + total) {
         if case < base {
             continue;
